@@ -361,6 +361,57 @@ theorem all_tried_when_none_succeeds {α β : Type} (f : α → Option β) (l : 
     (tryBackends f l).2 = l.length :=
   tryBackends_attempts_all f l h
 
+/-! ### … whatever the KIND of failure (refused, timed out, closed, cancelled, cached) -/
+
+/-- the outcome does not depend on how the failed attempts failed: only on which candidates succeed -/
+theorem outcome_independent_of_failure_class {α σ : Type} (status : α → Attempt σ) (cands : List α) (fb : Option σ) :
+    resolveE neverStop status cands fb = resolve (fun a => (status a).toOption) cands fb := by
+  unfold resolveE resolve
+  rw [tryBackendsE_neverStop]
+
+/-- fallback iff every candidate failed — for every assignment of failure classes -/
+theorem fallback_only_if_all_failed_any_class {α σ : Type} (status : α → Attempt σ) (cands : List α) (fb : Option σ) (f : σ) :
+    resolveE neverStop status cands fb = .fallback f ↔ (∀ a ∈ cands, ∃ c, status a = .fail c) ∧ fb = some f := by
+  rw [outcome_independent_of_failure_class, fallback_only_if_all_failed]
+  constructor
+  · rintro ⟨h, hf⟩
+    refine ⟨fun a ha => ?_, hf⟩
+    have := h a ha
+    cases hs : status a with
+    | ok b => rw [hs] at this; cases this
+    | fail c => exact ⟨c, rfl⟩
+  · rintro ⟨h, hf⟩
+    refine ⟨fun a ha => ?_, hf⟩
+    obtain ⟨c, hc⟩ := h a ha
+    rw [hc]; rfl
+
+/-- a healthy candidate behind ANY kind of failed candidates is asked and its status is returned -/
+theorem healthy_backend_behind_failures_is_used {α σ : Type} (status : α → Attempt σ) (pre post : List α) (a : α) (st : σ)
+    (fb : Option σ) (hpre : ∀ x ∈ pre, ∃ c, status x = .fail c) (ha : status a = .ok st) :
+    resolveE neverStop status (pre ++ a :: post) fb = .backend st ∧
+    (tryBackendsE neverStop status (pre ++ a :: post)).2 = pre.length + 1 := by
+  rw [outcome_independent_of_failure_class, tryBackendsE_neverStop]
+  have hp : ∀ x ∈ pre, (fun a => (status a).toOption) x = none := by
+    intro x hx; obtain ⟨c, hc⟩ := hpre x hx; simp [hc, Attempt.toOption]
+  have hs : (fun a => (status a).toOption) a = some st := by simp [ha, Attempt.toOption]
+  exact ⟨(backend_status_is_first_success _ _ fb st).2 ⟨pre, a, post, rfl, hp, hs⟩,
+    tryBackends_attempts _ pre post a st hp hs⟩
+
+/-- the dimension matters: a variant that stops walking after a timeout-class failure ("the pinging client has gone
+    away") serves the fallback although a healthy backend is configured behind a backend whose dial timed out -/
+theorem stop_on_timeout_variant_fails :
+    ¬ (∀ (status : Nat → Attempt String) (cands : List Nat) (fb : Option String) (f : String),
+        resolveE (fun c => c == .timeout) status cands fb = .fallback f → ∀ a ∈ cands, ∃ c, status a = .fail c) := by
+  intro h
+  have := h (fun a => if a = 0 then .fail .timeout else .ok "up") [0, 1] (some "fb") "fb" (by decide) 1 (by simp)
+  obtain ⟨c, hc⟩ := this
+  simp at hc
+
+example : resolveE neverStop (fun (a : Nat) => if a = 0 then Attempt.fail .timeout else .ok "up") [0, 1] (some "fb") = .backend "up" := by
+  decide
+example : resolveE neverStop (fun (a : Nat) => if a = 0 then Attempt.fail .canceled else .fail .refused) [0, 1] (some "fb") = .fallback "fb" := by
+  decide
+
 /-! ### non-vacuity: concrete schedules -/
 
 def k1 : Key := ⟨[97], 765, 0⟩
